@@ -7,8 +7,8 @@ package main
 //	dnsverif -list
 //
 // exit 0: every obligation discharged or listed in known_findings.json
-// exit 1: an unlisted violated obligation (prints "VIOLATION property=.. replay=..")
-// exit 2: undecided (load failure, unresolved anchor, analyser panic, vacuous rule)
+// exit 1: an unlisted violated obligation, or an obligation the rule could not decide (prints "VIOLATION property=.. replay=..")
+// exit 2: the tool itself could not run (usage, load or type-check failure, a property with no obligations at all)
 
 import (
 	"encoding/json"
@@ -244,17 +244,36 @@ func runProp(p *Prog, pd *propDef, tier string, seed int64, verif string, known 
 		fmt.Printf("VIOLATION property=%s replay=%s\n", pd.ID, rp)
 		vioOut = append(vioOut, map[string]string{"key": o.Key(), "pos": o.Pos, "detail": o.Detail})
 	}
-	for _, o := range und {
+	// An obligation the rule could not decide (its anchor is gone, a construct it does not understand, a floor not
+	// reached) means the property was NOT shown to hold on this tree: it fails the check exactly like a violation,
+	// with its own replay file, and is labelled UNDECIDED so the reader knows the rule lost its footing rather than
+	// found a counter-example.
+	for i, o := range und {
+		rp := filepath.Join(replayDir, fmt.Sprintf("%s-u%d.json", pd.ID, i+1))
+		if !noEvidence {
+			os.MkdirAll(replayDir, 0o755)
+			rf := replayFile{Property: pd.ID, Rule: o.Rule, Construct: o.Construct, Pos: o.Pos, Detail: "UNDECIDED: " + o.Detail, RuleText: c.Rules[o.Rule], Tier: tier}
+			b, _ := json.MarshalIndent(rf, "", " ")
+			os.WriteFile(rp, b, 0o644)
+		}
 		fmt.Printf("UNDECIDED: %s: %s: %s: %s\n", o.Pos, o.Rule, o.Construct, o.Detail)
+		fmt.Printf("VIOLATION property=%s replay=%s\n", pd.ID, rp)
 	}
 	if panicMsg != "" {
 		fmt.Printf("UNDECIDED: property=%s %s\n", pd.ID, panicMsg)
+		rp := filepath.Join(replayDir, pd.ID+"-panic.json")
+		if !noEvidence {
+			os.MkdirAll(replayDir, 0o755)
+			b, _ := json.MarshalIndent(replayFile{Property: pd.ID, Rule: pd.ID + ".analyser", Construct: "panic", Detail: "UNDECIDED: " + panicMsg, Tier: tier}, "", " ")
+			os.WriteFile(rp, b, 0o644)
+		}
+		fmt.Printf("VIOLATION property=%s replay=%s\n", pd.ID, rp)
 	}
 
 	switch {
-	case panicMsg != "" || undecidedN > 0 || len(c.Obls) == 0:
+	case len(c.Obls) == 0 && panicMsg == "":
 		rc = 2
-	case violated > 0:
+	case violated > 0 || undecidedN > 0 || panicMsg != "":
 		rc = 1
 	default:
 		rc = 0
